@@ -2,6 +2,7 @@ package checks
 
 import (
 	"fmt"
+	"sort"
 
 	"verif/engine/gosym"
 	. "verif/engine/oracle"
@@ -167,11 +168,11 @@ func runShapes(r *Run, shapes []Shape, o eqOpts, perShapePaths int) {
 				case "diff":
 					if len(eo.More) > 0 {
 						for _, x := range eo.More {
-							if len(diffs) < 200 {
+							if len(diffs) < 50000 {
 								diffs = append(diffs, x)
 							}
 						}
-					} else if len(diffs) < 200 {
+					} else if len(diffs) < 50000 {
 						diffs = append(diffs, eo)
 					}
 				}
@@ -188,12 +189,24 @@ func runShapes(r *Run, shapes []Shape, o eqOpts, perShapePaths int) {
 		// group by class; within a class try the candidates until one reproduces
 		var order []string
 		byClass := map[string][]eqOutcome{}
+		// deterministic order: paths finish in any order on the worker pool
+		for i := range diffs {
+			diffs[i].Class = classifyEq(r.ID, diffs[i])
+		}
+		sort.SliceStable(diffs, func(i, j int) bool {
+			if diffs[i].Class != diffs[j].Class {
+				return diffs[i].Class < diffs[j].Class
+			}
+			if len(diffs[i].Src) != len(diffs[j].Src) {
+				return len(diffs[i].Src) < len(diffs[j].Src)
+			}
+			return diffs[i].Src+diffs[i].Data < diffs[j].Src+diffs[j].Data
+		})
 		for _, d := range diffs {
-			d.Class = classifyEq(r.ID, d)
 			if _, ok := byClass[d.Class]; !ok {
 				order = append(order, d.Class)
 			}
-			if len(byClass[d.Class]) < 4 {
+			if n := len(byClass[d.Class]); n < 6 && (n == 0 || byClass[d.Class][n-1].Src != d.Src) {
 				byClass[d.Class] = append(byClass[d.Class], d)
 			}
 		}
